@@ -207,6 +207,34 @@ def r52(ctx, rep, sv, nc):
             rep.held('R5.2', nc, norm(p), 'the cached key function is the one the runs were sorted with', p)
         else:
             rep.violated('R5.2', nc, norm(p), 'self._getkey is published as %s, the runs were sorted with %s' % (norm(p.value), keyname), p)
+    # every merge of the view goes through the dispatcher that honours `reverse` (the specialised merges assume one
+    # direction each), unless the call itself stands under a test of `reverse`
+    from ..absint import parent_map
+    for fn in sv.methods.values():
+        pm = parent_map(fn.node)
+        for special, need in (('_heapqmergesorted', False), ('_shortlistmergesorted', None)):
+            for m in _calls(fn, special):
+                guarded = None
+                cur = m
+                while id(cur) in pm:
+                    p = pm[id(cur)]
+                    if isinstance(p, ast.If):
+                        t = norm(p.test)
+                        inbody = any(cur is b for b in p.body)
+                        if t in ('reverse', 'self.reverse'):
+                            guarded = inbody
+                        elif t in ('not reverse', 'not self.reverse'):
+                            guarded = not inbody
+                    cur = p
+                if special == '_heapqmergesorted' and guarded is False:
+                    rep.held('R5.2', fn, norm(m)[:60], 'forward merge under `not reverse`', m)
+                elif special == '_shortlistmergesorted' and len(m.args) >= 2:
+                    rep.held('R5.2', fn, norm(m)[:60], 'takes the reverse flag', m)
+                else:
+                    rep.violated('R5.2', fn, norm(m)[:60],
+                                 '%s merges the runs with %s, which only merges in ascending order / needs the reverse flag: '
+                                 'with reverse=True the runs (sorted descending) are merged as if ascending, so a pass served '
+                                 'from the chunk files yields another sequence than the pass that wrote them' % (fn.name, special), m)
     # file-cache passes
     for fn in sv.methods.values():
         if fn is nc:
